@@ -180,7 +180,7 @@ void LibCall::done()
     g_sim.in_lib = 0;
     finished = true;
     if (g_sim.fired_vna) c.count("fault.alloc.vna.fired", g_sim.fired_vna);
-    if (g_sim.fired_yaml) c.count("fault.alloc.yaml.fired", g_sim.fired_yaml);
+    if (g_sim.fired_yaml) { c.count("fault.alloc.yaml.fired", g_sim.fired_yaml); c.count("ledger.yaml_blocks_forgiven", (long)ledger_forgive_yaml(g_sim.op_index)); }
     if (g_sim.fired_read_eio) c.count("fault.read.eio.fired", g_sim.fired_read_eio);
     if (g_sim.fired_read_eof) c.count("fault.read.eof.fired", g_sim.fired_read_eof);
     if (g_sim.fired_write_err) c.count("fault.write.err.fired", g_sim.fired_write_err);
